@@ -1,4 +1,5 @@
 import Gomacro.Props.C02E2E
+import Gomacro.Props.C02Quote
 /-!
 # C02, end to end, modulo nil: the larger fragment
 -/
@@ -443,21 +444,27 @@ theorem empty_zero : ∀ (n : Nat) (t : Ty) (v : GoVal), wt env n t v = true →
             | some nv => simp [isEmptyVal] at he
           | _ => simp [wt, hf, hb] at h
 
-theorem key_of_fieldOkN (f : Field) (hp : fieldOkN f = true) (k : String)
+theorem key_of_keyOkN (f : Field) (hp : keyOkN f = true) (k : String)
     (hk : Tags.goJsonKey f.tag f.name f.goExported = some k) : k = E2E.fkey f := by
-  simp only [fieldOkN, Bool.and_eq_true, Bool.or_eq_true, beq_iff_eq] at hp
+  simp only [keyOkN, Bool.or_eq_true, beq_iff_eq] at hp
   have := Tags.C09_key_eq f.tag f.name f.goExported k (by
-    rcases hp.2 with h | h
+    rcases hp with h | h
     · exact Or.inl h
     · exact Or.inr h) hk
   exact this.symm
 
-theorem encodeFields_keysN (n : Nat) (sh : Bool) (vals : List (String × GoVal)) :
-    ∀ (fs : List Field), (∀ f ∈ fs, E2E.isSer f = true → fieldOkN f = true) →
+theorem keyOkN_of_fieldOkN (f : Field) (h : fieldOkN f = true) : keyOkN f = true := by
+  simp only [fieldOkN, Bool.and_eq_true] at h; exact h.2
+
+theorem keyOkN_of_fieldOkS (f : Field) (h : fieldOkS env f = true) : keyOkN f = true := by
+  simp only [fieldOkS, Bool.and_eq_true] at h; exact h.2
+
+theorem encodeFields_keysK (n : Nat) (sh : Bool) (vals : List (String × GoVal)) :
+    ∀ (fs : List Field), (∀ f ∈ fs, E2E.isSer f = true → keyOkN f = true) →
       ∀ p ∈ encodeFields env w n sh fs vals, ∃ f ∈ fs, E2E.isSer f = true ∧ p.1 = E2E.fkey f
   | [], _, p, hp => by simp [encodeFields] at hp
   | f0 :: fs, hpl, p, hp => by
-    have ih := encodeFields_keysN n sh vals fs (fun f hf => hpl f (by simp [hf]))
+    have ih := encodeFields_keysK n sh vals fs (fun f hf => hpl f (by simp [hf]))
     unfold encodeFields at hp
     cases hk : Tags.goJsonKey f0.tag f0.name f0.goExported with
     | none =>
@@ -478,7 +485,7 @@ theorem encodeFields_keysN (n : Nat) (sh : Bool) (vals : List (String × GoVal))
         · obtain ⟨f, hf, h1, h2⟩ := ih p hp
           exact ⟨f, by simp [hf], h1, h2⟩
         · rcases List.mem_cons.mp hp with rfl | hp
-          · exact ⟨f0, by simp, hser, key_of_fieldOkN f0 hok key hk⟩
+          · exact ⟨f0, by simp, hser, key_of_keyOkN f0 hok key hk⟩
           · obtain ⟨f, hf, h1, h2⟩ := ih p hp
             exact ⟨f, by simp [hf], h1, h2⟩
 
@@ -492,15 +499,16 @@ theorem lookup_none_of_keys {β} (k : String) : ∀ (l : List (String × β)), (
 
 /-- what the document of a struct holds under the key of a serialised field: nothing when the field
 is `omitempty` and its value empty, the document of the value otherwise -/
-theorem encodeFields_lookupN (n : Nat) (sh : Bool) (vals : List (String × GoVal)) :
-    ∀ (fs : List Field), (∀ f ∈ fs, E2E.isSer f = true → fieldOkN f = true) →
+theorem encodeFields_lookupK (n : Nat) (sh : Bool) (vals : List (String × GoVal)) :
+    ∀ (fs : List Field), (∀ f ∈ fs, E2E.isSer f = true → keyOkN f = true) →
       (∀ f ∈ fs, E2E.isSer f = true → ∃ v, vals.lookup f.name = some v) → ((serialised fs).map E2E.fkey).Nodup →
       ∀ f ∈ fs, E2E.isSer f = true → ∀ v, vals.lookup f.name = some v →
         (encodeFields env w n sh fs vals).lookup (E2E.fkey f) =
-          if isOmit f && isEmptyVal v then none else some (encode env w n (sh && isUnionTy env f.ty) f.ty v)
+          if isOmit f && isEmptyVal v then none
+          else some (quoteIf (tagOptions f.tag) v (encode env w n (sh && isUnionTy env f.ty) f.ty v))
   | [], _, _, _, f, hf, _, _, _ => by simp at hf
   | f0 :: fs, hpl, hex, hnd, f, hf, hs, v, hv => by
-    have hpl' : ∀ f ∈ fs, E2E.isSer f = true → fieldOkN f = true := fun f hf => hpl f (by simp [hf])
+    have hpl' : ∀ f ∈ fs, E2E.isSer f = true → keyOkN f = true := fun f hf => hpl f (by simp [hf])
     have hex' : ∀ f ∈ fs, E2E.isSer f = true → ∃ v, vals.lookup f.name = some v := fun f hf => hex f (by simp [hf])
     unfold encodeFields
     cases hk : Tags.goJsonKey f0.tag f0.name f0.goExported with
@@ -514,20 +522,17 @@ theorem encodeFields_lookupN (n : Nat) (sh : Bool) (vals : List (String × GoVal
       simp only []
       rcases List.mem_cons.mp hf with rfl | hf
       · rw [hns] at hs; exact absurd hs (by simp)
-      · exact encodeFields_lookupN n sh vals fs hpl' hex' hnd' f hf hs v hv
+      · exact encodeFields_lookupK n sh vals fs hpl' hex' hnd' f hf hs v hv
     | some key =>
       have hser : E2E.isSer f0 = true := by simp [E2E.isSer, hk]
       have hok0 := hpl f0 (by simp) hser
       obtain ⟨v0, hv0⟩ := hex f0 (by simp) hser
-      have hstr : (tagOptions f0.tag).contains "string" = false := by
-        simp only [fieldOkN, Bool.and_eq_true, Bool.not_eq_true'] at hok0
-        exact hok0.1
-      have hkey := key_of_fieldOkN f0 hok0 key hk
+      have hkey := key_of_keyOkN f0 hok0 key hk
       have hser_cons : serialised (f0 :: fs) = f0 :: serialised fs := by
         simp only [serialised, List.filter_cons]
         simp [hk]
       rw [hser_cons, List.map_cons, List.nodup_cons] at hnd
-      simp only [hv0, hstr, Bool.false_eq_true, if_false]
+      simp only [hv0]
       rcases List.mem_cons.mp hf with rfl | hf
       · rw [hv0] at hv
         cases hv
@@ -536,7 +541,7 @@ theorem encodeFields_lookupN (n : Nat) (sh : Bool) (vals : List (String × GoVal
           simp only [hom, hom', if_true]
           apply lookup_none_of_keys
           intro p hp he
-          obtain ⟨g, hg, hgs, hpk⟩ := encodeFields_keysN env w n sh vals fs hpl' p hp
+          obtain ⟨g, hg, hgs, hpk⟩ := encodeFields_keysK env w n sh vals fs hpl' p hp
           apply hnd.1
           rw [← he, hpk]
           exact List.mem_map.mpr ⟨g, List.mem_filter.mpr ⟨hg, hgs⟩, rfl⟩
@@ -550,7 +555,7 @@ theorem encodeFields_lookupN (n : Nat) (sh : Bool) (vals : List (String × GoVal
           apply hnd.1
           rw [← he]
           exact List.mem_map.mpr ⟨f, List.mem_filter.mpr ⟨hf, hs⟩, rfl⟩
-        have ih := encodeFields_lookupN n sh vals fs hpl' hex' hnd.2 f hf hs v hv
+        have ih := encodeFields_lookupK n sh vals fs hpl' hex' hnd.2 f hf hs v hv
         by_cases hom : ((tagOptions f0.tag).contains "omitempty" && isEmptyVal v0) = true
         · simp only [hom, if_true]
           exact ih
@@ -562,13 +567,38 @@ theorem encodeFields_lookupN (n : Nat) (sh : Bool) (vals : List (String × GoVal
           exact ih
 
 
+theorem quoteIf_noString (opts : List String) (h : opts.contains "string" = false) (v : GoVal) (j : JVal) :
+    quoteIf opts v j = j := by
+  simp only [quoteIf, h, Bool.false_eq_true, if_false]
+
+/-- the two lemmas above for fields without the `string` option (the SQL fragment) -/
+theorem encodeFields_keysN (n : Nat) (sh : Bool) (vals : List (String × GoVal))
+    (fs : List Field) (hpl : ∀ f ∈ fs, E2E.isSer f = true → fieldOkN f = true) :
+    ∀ p ∈ encodeFields env w n sh fs vals, ∃ f ∈ fs, E2E.isSer f = true ∧ p.1 = E2E.fkey f :=
+  encodeFields_keysK env w n sh vals fs (fun f hf hs => keyOkN_of_fieldOkN f (hpl f hf hs))
+
+theorem encodeFields_lookupN (n : Nat) (sh : Bool) (vals : List (String × GoVal))
+    (fs : List Field) (hpl : ∀ f ∈ fs, E2E.isSer f = true → fieldOkN f = true)
+    (hex : ∀ f ∈ fs, E2E.isSer f = true → ∃ v, vals.lookup f.name = some v) (hnd : ((serialised fs).map E2E.fkey).Nodup)
+    (f : Field) (hf : f ∈ fs) (hs : E2E.isSer f = true) (v : GoVal) (hv : vals.lookup f.name = some v) :
+    (encodeFields env w n sh fs vals).lookup (E2E.fkey f) =
+      if isOmit f && isEmptyVal v then none else some (encode env w n (sh && isUnionTy env f.ty) f.ty v) := by
+  have h := encodeFields_lookupK env w n sh vals fs (fun f hf hs => keyOkN_of_fieldOkN f (hpl f hf hs)) hex hnd f hf hs v hv
+  have hstr : (tagOptions f.tag).contains "string" = false := by
+    have := hpl f hf hs
+    simp only [fieldOkN, Bool.and_eq_true, Bool.not_eq_true'] at this
+    exact this.1
+  rw [quoteIf_noString _ hstr] at h
+  exact h
+
 /-- reading the fields back from a document in which the key of every serialised field either holds
 a document that decodes to a value equal (modulo nil) to the field's, or is missing while the
 field's value equals its zero value -/
 theorem decodeFields_specN (n m : Nat) (sh : Bool) (E : List (String × JVal)) :
     ∀ (fs : List Field) (vals : List (String × GoVal)), wtFields env m fs vals = true →
       (∀ f ∈ fs, RoundTrip.isSer f = true → ∀ v, (f.name, v) ∈ vals →
-        (∃ j v', E.lookup (RoundTrip.fkey f) = some j ∧ decode env w n (sh && isUnionTy env f.ty) f.ty j = some v' ∧ eqNil v v' = true) ∨
+        (∃ j v', E.lookup (RoundTrip.fkey f) = some j ∧
+          (Unquote.fieldDoc env f j).bind (decode env w n (sh && isUnionTy env f.ty) f.ty) = some v' ∧ eqNil v v' = true) ∨
         (E.lookup (RoundTrip.fkey f) = none ∧ eqNil v (zeroVal env n f.ty) = true)) →
       ∃ vals', decodeFields env w n sh fs E = some vals' ∧ eqNilFields vals vals' = true
   | [], vals, h, _ => by
@@ -603,8 +633,10 @@ theorem rtn_struct (F : FragmentN env w ds) (n : Nat) (hg : ∀ k, k ≤ n → R
   have hok := F.ok d hd
   simp only [declOkN, hb, Bool.and_eq_true, List.all_eq_true, decide_eq_true_eq] at hok
   obtain ⟨⟨⟨hfields, hnd⟩, hndn⟩, hwrap⟩ := hok
-  have hplain : ∀ f ∈ fs, E2E.isSer f = true → fieldOkN f = true := fun f hf hs =>
+  have hplainS : ∀ f ∈ fs, E2E.isSer f = true → fieldOkS env f = true := fun f hf hs =>
     (hfields f (List.mem_filter.mpr ⟨hf, hs⟩)).1.1
+  have hplain : ∀ f ∈ fs, E2E.isSer f = true → keyOkN f = true := fun f hf hs =>
+    keyOkN_of_fieldOkS env f (hplainS f hf hs)
   unfold Back
   cases v with
   | struct vals =>
@@ -623,7 +655,7 @@ theorem rtn_struct (F : FragmentN env w ds) (n : Nat) (hg : ∀ k, k ≤ n → R
       (encodeFields env w n (w.structs.contains q) fs vals) fs vals hty (by
       intro f hf hs fv hfv
       have hlk := lookup_of_mem_nodup vals f.name fv hvnd hfv
-      have hlook := encodeFields_lookupN env w n (w.structs.contains q) vals fs hplain hex hnd f hf hs fv hlk
+      have hlook := encodeFields_lookupK env w n (w.structs.contains q) vals fs hplain hex hnd f hf hs fv hlk
       -- the value of the field is well typed
       obtain ⟨fv', hfv', hwt'⟩ := wtFields_mem env n fs vals hty f hf hs
       have : fv' = fv := by
@@ -671,15 +703,21 @@ theorem rtn_struct (F : FragmentN env w ds) (n : Nat) (hg : ∀ k, k ≤ n → R
             rw [hnotu, Bool.and_false]
             exact hg n (Nat.le_refl n) f.ty fv' hin hnu hfok.1.2 hwt'
         obtain ⟨bv, hbv, hbe⟩ := hback
-        exact ⟨_, bv, hlook, hbv, hbe⟩)
+        have hsok : (!(tagOptions f.tag).contains "string" || Unquote.stringOk env f.ty) = true := by
+          have := hplainS f hf hs
+          simp only [fieldOkS, Bool.and_eq_true] at this
+          exact this.1
+        refine ⟨_, bv, hlook, ?_, hbe⟩
+        rw [Unquote.fieldDoc_quoteIf env w f n _ fv' hsok hwt']
+        exact hbv)
     exact ⟨.struct vals', by rw [hdv]; rfl, by simp [eqNil, hev]⟩
   | _ => simp [wt, hfind, hb] at ht
 
 /-! ### the theorem -/
 
-/-- **C02, round trip modulo nil, on the larger fragment** (`omitempty`, `gomacro:"ignore"`, empty
-structs, `[]byte`, zero-length arrays, and named slices / maps of unions with their generated
-element-wise methods included): for every type over the declarations of a program in the fragment
+/-- **C02, round trip modulo nil, on the larger fragment** (`omitempty`, the `string` option,
+`gomacro:"ignore"`, empty structs, `[]byte`, zero-length arrays, and named slices / maps of unions
+with their generated element-wise methods included): for every type over the declarations of a program in the fragment
 and every strictly typed Go value, `json.Unmarshal` of the document `json.Marshal` writes — both
 with the generated methods — succeeds and gives a value deeply equal to the original, a nil and an
 empty slice or map counting as equal. -/
